@@ -811,4 +811,107 @@ theorem C15_pruning_exact (c : Cmd) (env : Env) (p : Plan) (h : run c env = .pla
           exact ⟨_, t6.1, by simp [hostWidth, hW6]⟩
         · cases hs
 
+/-- **C15_auto_exclude_exact.** The excludes handed over are the user's (resp. their IPv4 part)
+followed by automatic entries, and the automatic entries are *exactly* the host-wide excludes of the
+listen addresses the user did **not** list as a subnet: one for every such address, none for an
+address the user listed — whatever else (verbosity, other options) is on the command line. -/
+theorem C15_auto_exclude_exact (c : Cmd) (env : Env) (p : Plan) (h : run c env = .plan p) :
+    ∃ auto, p.excludes =
+        (if ipv6Active p then c.excludes else c.excludes.filter fun s => isV4 s.fam) ++ auto ∧
+      ∀ s, s ∈ auto ↔ ∃ a, Listener.at p.tcp s.fam = some a ∧ s = ⟨s.fam, a.ip, hostWidth s.fam, 0, 0⟩ ∧
+        ¬ ∃ u ∈ c.includes, u.fam = s.fam ∧ u.ip = a.ip := by
+  obtain ⟨hU, _, _, _, _, _, _, _, _, _, _, _, hW4, hW6⟩ := C15_side_conditions
+  obtain ⟨l6, l4, uid, gid, F⟩ := clientMain_plan_facts hU (run_plan h)
+  have t6 := F.tcp6
+  have t4 := F.tcp4
+  have hact : ipv6Active p = l6.isSome := by
+    unfold ipv6Active
+    cases hl : l6 with
+    | none => rw [hl] at t6; simp only [FamBound] at t6; simp [t6.1]
+    | some a => rw [hl] at t6; simp only [FamBound] at t6; simp [t6.1]
+  rw [hact, F.hexc]
+  simp only [mkPrep, List.append_assoc]
+  have hif : (if l6.isSome = true then c.excludes else c.excludes.filter fun s => isV4 s.fam) =
+      (if (!l6.isSome) = true then c.excludes.filter fun s => isV4 s.fam else c.excludes) := by
+    cases l6.isSome <;> rfl
+  rw [hif]
+  refine ⟨_, rfl, ?_⟩
+  intro s
+  have h4 : ∀ (a : Addr), (listedAsSubnet a.ip (c.includes.filter fun s => isV4 s.fam) = true) ↔
+      ∃ u ∈ c.includes, u.fam = Fam.v4 ∧ u.ip = a.ip := by
+    intro a; rw [listedAsSubnet_iff]
+    constructor
+    · rintro ⟨u, hu, hip⟩; simp only [List.mem_filter, isV4_iff] at hu; exact ⟨u, hu.1, hu.2, hip⟩
+    · rintro ⟨u, hu, hf, hip⟩; exact ⟨u, List.mem_filter.mpr ⟨hu, by simp [isV4, hf]⟩, hip⟩
+  have h6 : ∀ (a : Addr), (listedAsSubnet a.ip (c.includes.filter fun s => isV6 s.fam) = true) ↔
+      ∃ u ∈ c.includes, u.fam = Fam.v6 ∧ u.ip = a.ip := by
+    intro a; rw [listedAsSubnet_iff]
+    constructor
+    · rintro ⟨u, hu, hip⟩; simp only [List.mem_filter, isV6_iff] at hu; exact ⟨u, hu.1, hu.2, hip⟩
+    · rintro ⟨u, hu, hf, hip⟩; exact ⟨u, List.mem_filter.mpr ⟨hu, by simp [isV6, hf]⟩, hip⟩
+  rw [List.mem_append]
+  constructor
+  · rintro (hs | hs)
+    · cases hl : l4 with
+      | none => rw [hl] at hs; cases hs
+      | some a =>
+        rw [hl] at hs t4
+        simp only [FamBound] at t4
+        dsimp only at hs
+        split at hs
+        next hc =>
+          simp only [List.mem_singleton] at hs; subst hs
+          refine ⟨_, t4.1, by simp [hostWidth, hW4], ?_⟩
+          intro hex
+          have := (h4 a).mpr hex
+          simp [this] at hc
+        · cases hs
+    · cases hl : l6 with
+      | none => rw [hl] at hs; cases hs
+      | some a =>
+        rw [hl] at hs t6
+        simp only [FamBound] at t6
+        simp only [Option.isSome_some, Bool.not_true, Bool.false_and, Bool.false_eq_true, ↓reduceIte] at hs
+        split at hs
+        next hc =>
+          simp only [List.mem_singleton] at hs; subst hs
+          refine ⟨_, t6.1, by simp [hostWidth, hW6], ?_⟩
+          intro hex
+          have := (h6 a).mpr hex
+          simp [this] at hc
+        · cases hs
+  · rintro ⟨a, ha, hs, hno⟩
+    cases hf : s.fam with
+    | v4 =>
+      left
+      rw [hf] at ha hs hno
+      simp only [Listener.at] at ha
+      cases hl : l4 with
+      | none => rw [hl] at t4; simp only [FamBound] at t4; rw [t4.1] at ha; cases ha
+      | some b =>
+        rw [hl] at t4; simp only [FamBound] at t4
+        rw [t4.1] at ha; injection ha with ha; subst ha
+        have hn : listedAsSubnet b.ip (c.includes.filter fun s => isV4 s.fam) = false := by
+          cases hc : listedAsSubnet b.ip (c.includes.filter fun s => isV4 s.fam) with
+          | false => rfl
+          | true => exact absurd ((h4 b).mp hc) hno
+        simp only [hn, Bool.not_false, ↓reduceIte, List.mem_singleton]
+        rw [hs]; simp [hostWidth, hW4]
+    | v6 =>
+      right
+      rw [hf] at ha hs hno
+      simp only [Listener.at] at ha
+      cases hl : l6 with
+      | none => rw [hl] at t6; simp only [FamBound] at t6; rw [t6.1] at ha; cases ha
+      | some b =>
+        rw [hl] at t6; simp only [FamBound] at t6
+        rw [t6.1] at ha; injection ha with ha; subst ha
+        have hn : listedAsSubnet b.ip (c.includes.filter fun s => isV6 s.fam) = false := by
+          cases hc : listedAsSubnet b.ip (c.includes.filter fun s => isV6 s.fam) with
+          | false => rfl
+          | true => exact absurd ((h6 b).mp hc) hno
+        simp only [Option.isSome_some, Bool.not_true, Bool.false_and, Bool.false_eq_true, ↓reduceIte, hn,
+          Bool.not_false, List.mem_singleton]
+        rw [hs]; simp [hostWidth, hW6]
+
 end Sshuttle.ClientPlan
